@@ -223,10 +223,15 @@ pub fn g1_exceptional_roots() -> (Fq, Fq) {
 /// as sswu(u): solve x1(t) = X and x2(t) = X for t = Z u'^2 (two quadratics), keep verified ones.
 pub fn sswu_same_x_preimages<F: SqrtFld>(curve: &Curve<F>, zc: &F, u: &F) -> Vec<F> {
     let p = sswu(curve, zc, u);
-    let xx = match &p {
-        Pt::Aff(x, _) => x.clone(),
-        Pt::Inf => return vec![],
-    };
+    match &p {
+        Pt::Aff(x, _) => sswu_preimages_of_x(curve, zc, x),
+        Pt::Inf => vec![],
+    }
+}
+
+/// All u whose SSWU image has x-coordinate `xx` (empty when the map never produces that x).
+pub fn sswu_preimages_of_x<F: SqrtFld>(curve: &Curve<F>, zc: &F, xx: &F) -> Vec<F> {
+    let xx = xx.clone();
     let a = &curve.a;
     let b = &curve.b;
     let mut res: Vec<F> = vec![];
@@ -285,6 +290,23 @@ pub fn sswu_partner<F: SqrtFld>(curve: &Curve<F>, zc: &F, u: &F, same: bool) -> 
         }
     }
     None
+}
+
+/// All u with sswu(u) = P exactly (sign included); empty for the identity or points outside the image.
+pub fn sswu_preimages_of_point<F: SqrtFld>(curve: &Curve<F>, zc: &F, p: &Pt<F>) -> Vec<F> {
+    let x = match p {
+        Pt::Aff(x, _) => x,
+        Pt::Inf => return vec![],
+    };
+    let mut res = vec![];
+    for c in sswu_preimages_of_x(curve, zc, x) {
+        for cand in [c.clone(), c.neg()] {
+            if sswu(curve, zc, &cand) == *p && !res.contains(&cand) {
+                res.push(cand);
+            }
+        }
+    }
+    res
 }
 
 // ---------------------------------------------------------------------------------------------
